@@ -97,9 +97,35 @@ def _chunk_chain(args):
     return out
 
 
+def _chunk_variant(args):
+    """C09: the real code on the two programs the theorem C09_cancellations_invisible compares."""
+    prop, seed0, count = args
+    logging.disable(logging.CRITICAL)
+    out = Outcome()
+    for i in range(count):
+        rng = random.Random((seed0 << 20) + 800000 + i)
+        cfg, calls, plan, pick = B.gen_variant(rng)
+        case = {'variant': True, 'cfg': cfg, 'calls': calls, 'plan': plan, 'pick': pick}
+        mark(case)
+        out.evaluations += 1
+        xs, a, b = B.run_variant(cfg, calls, plan, pick)
+        for (p, kind, detail) in B.monitor_variant(calls, xs, a, b):
+            out.concrete.append({'case': case, 'what': f'{kind}: {detail}', 'observed': [B.canon(a), B.canon(b)],
+                                 'signature': {'kind': kind}})
+        out.traces_validated += 1
+        out.fingerprints.add(fingerprint(case))
+        out.count('variant:programs')
+        done_b = {e[2]: e[1] for e in b if e[0] == 'done'}
+        for x in xs:
+            out.count('variant:cancel-at-answer-instant' if done_b.get(x[2]) == x[1] else 'variant:cancel-elsewhere')
+    return out
+
+
 def _dispatch(args):
     if args[0] == 'chain':
         return _chunk_chain(args[1:])
+    if args[0] == 'variant':
+        return _chunk_variant(args[1:])
     return _chunk(args)
 
 
@@ -111,6 +137,8 @@ def make(prop, flavor, quick_n, thorough_n):
         chunks = [(prop, flavor, ctx.seed * 1000 + k, per, True) for k in range(max(1, n // per))]
         if prop == 'C11':
             chunks += [('chain', prop, ctx.seed * 1000 + k, 100 if ctx.quick else 3000) for k in range(workers)]
+        if prop == 'C09':
+            chunks += [('variant', prop, ctx.seed * 1000 + k, 100 if ctx.quick else 3000) for k in range(workers)]
         return run_chunks(_dispatch, chunks, workers, limit_s=60 if ctx.quick else 900)
 
     def search(ctx, outcome):
@@ -118,6 +146,8 @@ def make(prop, flavor, quick_n, thorough_n):
         chunks = [(prop, flavor, (ctx.seed + 7) * 1000 + 500 + k, 400, False) for k in range(8)]
         if prop == 'C11':
             chunks += [('chain', prop, (ctx.seed + 7) * 1000 + 600 + k, 300) for k in range(4)]
+        if prop == 'C09':
+            chunks += [('variant', prop, (ctx.seed + 7) * 1000 + 600 + k, 300) for k in range(4)]
         out = run_chunks(_dispatch, chunks, ctx.workers, limit_s=60)
         out.diffs = []
         return out
@@ -128,6 +158,12 @@ def make(prop, flavor, quick_n, thorough_n):
             res, batches = B.run_chain(case['cfg'], case['callers'], case['plan'])
             bad = B.monitor_chain(case['cfg'], case['callers'], res, batches)
             return {'case': case, 'requests': {str(k): v for k, v in res.items()}, 'batches': batches,
+                    'monitor': bad, 'fails': bool(bad)}
+        if case.get('variant'):
+            calls = [tuple(i) for i in case['calls']]
+            xs, a, b = B.run_variant(case['cfg'], calls, case['plan'], case['pick'])
+            bad = B.monitor_variant(calls, xs, a, b)
+            return {'case': case, 'cancellations': xs, 'with': B.canon(a), 'without': B.canon(b),
                     'monitor': bad, 'fails': bool(bad)}
         cfg, plan = case['cfg'], case['plan']
         ins = [tuple(i) for i in case['ins']]
